@@ -205,44 +205,75 @@ fn cbor_digest(file: &std::path::Path) -> String {
         .unwrap_or("undecodable".to_string())
 }
 
+fn file_digest(file: &std::path::Path) -> String {
+    std::fs::read_to_string(file).unwrap_or("unreadable".to_string())
+}
+
+/// The batch experiment runner: `runs` x `problems` jobs on pools of 1/4/16 threads, with the
+/// run number as seed (or the generator of the user's setup).  Every (configuration, problem, run)
+/// is also made directly with `optimize_with` (pool 0): its log is the reference the runner's
+/// `<problem>_<run>.cbor` has to decode to.  A second experiment with another configuration is run
+/// into the same folder: `configuration.ron` has to be the record of the configuration that was run.
 fn experiments(out: &mut Out, dir: &std::path::Path, runs: u64, pools: &[usize]) {
-    let problem = RealProblem::new(1, 3, -4.0, 12.0);
-    let config: Configuration<RealProblem> = rs::real_rs(LessThanN::iterations(12)).unwrap();
+    let mut problems = vec![RealProblem::new(1, 3, -4.0, 12.0), RealProblem::new(0, 2, -1.0, 1.0), RealProblem::new(2, 2, -2.0, 2.0)];
+    problems[1].label = "RealProblem-b";
+    problems[2].label = "RealProblem-c";
+    let configs: Vec<(&str, Configuration<RealProblem>)> = vec![
+        ("real_rs(12)", rs::real_rs(LessThanN::iterations(12)).unwrap()),
+        ("real_rs(5)", rs::real_rs(LessThanN::iterations(5)).unwrap()),
+    ];
     let mut id = 800000u64;
     for own_rng in [false, true] {
-        let key = if own_rng { "real_rs-own-generator" } else { "real_rs" };
-        // reference: the same run made directly with optimize_with (run number as seed, or the user's generator)
-        for run in 0..runs {
-            let file = dir.join(format!("exp-ref-{}-{run}.cbor", std::process::id()));
-            let res = config.optimize_with(&problem, |state| {
-                if !own_rng {
-                    state.insert(Random::new(run));
+        let tag = if own_rng { "-own-generator" } else { "" };
+        // references: the same runs made directly with optimize_with (run number as seed, or the user's generator)
+        for (cname, config) in &configs {
+            for problem in &problems {
+                for run in 0..runs {
+                    let file = dir.join(format!("exp-ref-{}-{run}.cbor", std::process::id()));
+                    let res = config.optimize_with(problem, |state| {
+                        if !own_rng {
+                            state.insert(Random::new(run));
+                        }
+                        log_setup(state, own_rng)
+                    });
+                    let ok = match res {
+                        Ok(state) => state.log().to_cbor(&file).is_ok(),
+                        Err(_) => false,
+                    };
+                    let decoded = cbor_digest(&file);
+                    let _ = std::fs::remove_file(&file);
+                    id += 1;
+                    out.emit(&json!({"run": id, "ev": "exp", "key": format!("{cname}{tag}/{}", problem.label), "pool": 0, "rn": run,
+                                     "ok": (ok && decoded != "undecodable") as i64, "digest": fnv(&decoded)}));
                 }
-                log_setup(state, own_rng)
-            });
-            let ok = match res {
-                Ok(state) => state.log().to_cbor(&file).is_ok(),
-                Err(_) => false,
-            };
-            let decoded = cbor_digest(&file);
-            let _ = std::fs::remove_file(&file);
+            }
+            let file = dir.join(format!("exp-ref-{}.ron", std::process::id()));
+            let ok = config.to_ron(&file).is_ok();
             id += 1;
-            out.emit(&json!({"run": id, "ev": "exp", "key": key, "pool": 0, "rn": run, "ok": (ok && decoded != "undecodable") as i64,
-                             "digest": fnv(&decoded)}));
+            out.emit(&json!({"run": id, "ev": "exp", "key": format!("{cname}/configuration.ron"), "pool": 0, "rn": 0,
+                             "ok": ok as i64, "digest": fnv(&file_digest(&file))}));
+            let _ = std::fs::remove_file(&file);
         }
         for &k in pools {
+            // both experiments go into the same folder, one after the other
             let folder = dir.join(format!("exp-{}-{k}-{}", std::process::id(), own_rng as u8));
             let pool = rayon::ThreadPoolBuilder::new().num_threads(k).build().unwrap();
-            let problems = [problem.clone()];
-            let res: Result<ExecResult<()>, String> =
-                caught(|| pool.install(|| par_experiment(&config, |state| log_setup(state, own_rng), &problems, runs, &folder, true)));
-            let ok = matches!(res, Ok(Ok(())));
-            for run in 0..runs {
-                // the decoded content is what matters; key order inside a step map is not stable, so it is sorted
-                let decoded = cbor_digest(&folder.join(format!("RealProblem_{run}.cbor")));
+            for (cname, config) in &configs {
+                let res: Result<ExecResult<()>, String> =
+                    caught(|| pool.install(|| par_experiment(config, |state| log_setup(state, own_rng), &problems, runs, &folder, true)));
+                let ok = matches!(res, Ok(Ok(())));
+                for problem in &problems {
+                    for run in 0..runs {
+                        // the decoded content is what matters; key order inside a step map is not stable, so it is sorted
+                        let decoded = cbor_digest(&folder.join(format!("{}_{run}.cbor", problem.label)));
+                        id += 1;
+                        out.emit(&json!({"run": id, "ev": "exp", "key": format!("{cname}{tag}/{}", problem.label), "pool": k, "rn": run,
+                                         "ok": (ok && decoded != "undecodable") as i64, "digest": fnv(&decoded)}));
+                    }
+                }
                 id += 1;
-                out.emit(&json!({"run": id, "ev": "exp", "key": key, "pool": k, "rn": run, "ok": (ok && decoded != "undecodable") as i64,
-                                 "digest": fnv(&decoded)}));
+                out.emit(&json!({"run": id, "ev": "exp", "key": format!("{cname}/configuration.ron"), "pool": k, "rn": 0,
+                                 "ok": ok as i64, "digest": fnv(&file_digest(&folder.join("configuration.ron")))}));
             }
             let _ = std::fs::remove_dir_all(&folder);
         }
@@ -275,6 +306,11 @@ pub fn main(args: &Args) -> usize {
             children(&mut out, &[0, 1, 2, 1, 0, args.seed(), args.seed() + 1, args.seed()]);
             let dir = std::path::Path::new(&outp).parent().map(|p| p.to_path_buf()).unwrap_or_default();
             experiments(&mut out, &dir, args.num("exp-runs", 4), &[1, 4, 16]);
+        }
+        // only the batch experiment runner (C15: configuration record and exported logs)
+        "experiments" => {
+            let dir = std::path::Path::new(&outp).parent().map(|p| p.to_path_buf()).unwrap_or_default();
+            experiments(&mut out, &dir, args.num("exp-runs", 4), &[1, 4]);
         }
         other => panic!("unknown mode {other}"),
     }
